@@ -298,6 +298,9 @@ func (p *PacketOut) UnmarshalBinary(data []byte) error {
 		if err != nil {
 			return err
 		}
+		if a.Len() == 0 {
+			return errors.New("an action in the packet-out reports length 0")
+		}
 		p.Actions = append(p.Actions, a)
 		n += a.Len()
 	}
